@@ -1,3 +1,185 @@
-(* Canon2 — reserved for the proof agent owning this topic. *)
+(* Canon2 — bridge: the well-formedness invariant of WFDef.v (preserved by the tree
+   operations, TreeWF*.v) implies Canonical; hence WF trees with the same route
+   set are equal. *)
 From FoxBase Require Import Bytes.
-From FoxRoute Require Import Node Lookup Spec Tree.
+From FoxRoute Require Import Node Tree WFDef Canon.
+From Coq Require Import Sorting.Sorted Sorting.Permutation Lia.
+Open Scope char_scope.
+
+(* ---------- on legal prefixes, hostpart = "no '/' so far" ---------- *)
+Lemma vstep_inv s c :
+  snd (vstep s c) <> VBad ->
+  snd s <> VBad /\ fst (vstep s c) = fst s && negb (Ascii.eqb c "/").
+Proof.
+  destruct s as [h st]. destruct (Ascii.eqb_spec c "/") as [->|N1].
+  - destruct st, h; cbn; intros Hn; split; congruence.
+  - apply Ascii.eqb_neq in N1. cbn [vstep fst snd]. rewrite ?N1.
+    destruct st; cbn [fst snd]; rewrite ?N1;
+      destruct (Ascii.eqb c "{"), (Ascii.eqb c "*"), (Ascii.eqb c "}"), (Ascii.eqb c "."), h;
+      cbn; intros Hn; split; congruence.
+Qed.
+
+Lemma vrun_nobad : forall u s,
+  snd (fold_left vstep u s) <> VBad ->
+  snd s <> VBad /\ fst (fold_left vstep u s) = fst s && negb (has_slash u).
+Proof.
+  induction u as [|a u IH]; intros s Hn; cbn [fold_left] in *.
+  - split; auto. cbn. rewrite andb_true_r. reflexivity.
+  - destruct (IH _ Hn) as [H1 H2]. destruct (vstep_inv _ _ H1) as [H3 H4]. split; auto.
+    rewrite H2, H4. cbn [has_slash existsb]. fold (has_slash u).
+    rewrite negb_orb, andb_assoc. reflexivity.
+Qed.
+
+Lemma closed_hostpart u : closed u = true -> hostpart u = negb (has_slash u).
+Proof.
+  unfold closed, hostpart, vrun, vclosed. intros Hc.
+  destruct (vrun_nobad u vinit) as [_ H].
+  - intros E. rewrite E in Hc. discriminate.
+  - rewrite H. reflexivity.
+Qed.
+
+(* ---------- WF -> Canonical ---------- *)
+Lemma WF_CanonN : forall n pre,
+  closed pre = true -> WF_node pre n -> CanonN (negb (has_slash pre)) n.
+Proof.
+  induction n as [k r ch IH] using cnode_ind. intros pre Hpre Hwf.
+  inversion Hwf as [? ? ? ? Hk Hcl Hhost Hsort Hleaf Hinner Hch]; subst.
+  rewrite (closed_hostpart _ Hpre), (closed_hostpart _ Hcl) in Hhost.
+  assert (Hnext : negb (has_slash (pre ++ k)) = next_host (negb (has_slash pre)) k).
+  { unfold next_host. rewrite has_slash_app, negb_orb. reflexivity. }
+  constructor.
+  - destruct k as [|c t]; [congruence|]. cbn [key_ok].
+    destruct (has_slash pre) eqn:Hp; [reflexivity|]. cbn [negb orb].
+    destruct (Ascii.eqb c "/") eqn:Hc; [reflexivity|]. cbn [orb].
+    assert (Hs : negb (has_slash (pre ++ c :: t)) = true).
+    { apply Hhost; [reflexivity|]. cbn [starts_with]. exact Hc. }
+    rewrite has_slash_app, Hp in Hs. cbn [orb has_slash existsb] in Hs. rewrite Hc in Hs.
+    exact Hs.
+  - exact Hsort.
+  - rewrite <- Hnext. rewrite Forall_forall in IH, Hch |- *. intros c Hc. apply IH; auto.
+  - rewrite <- Hnext. destruct r as [x|]; [reflexivity|]. cbn [branch_ok].
+    destruct (Hinner eq_refl) as [Hl|(Hh & g & -> & Hg)].
+    + destruct ch as [|g1 [|g2 ch']]; simpl in Hl; [lia | lia | reflexivity].
+    + rewrite (closed_hostpart _ Hcl) in Hh. rewrite Hh, Hg. reflexivity.
+Qed.
+
+Lemma WF_sufs_pat : forall n pre p r,
+  WF_node pre n -> In (p, r) (sufs n) -> rpat r = pre ++ p.
+Proof.
+  induction n as [k rt ch IH] using cnode_ind. intros pre p r Hwf Hin.
+  inversion Hwf as [? ? ? ? Hk Hcl Hhost Hsort Hleaf Hinner Hch]; subst.
+  apply sufs_in in Hin as ([q r'] & E & Hq). unfold prepend in E. cbn [fst snd] in E.
+  injection E as -> ->. apply in_app_or in Hq as [Hq|Hq].
+  - destruct rt as [x|]; simpl in Hq; [|contradiction]. destruct Hq as [E|[]].
+    injection E as <- <-. destruct (Hleaf x eq_refl) as [Hp _]. rewrite Hp, app_nil_r. reflexivity.
+  - apply in_flat_map in Hq as (c & Hc & Hq). rewrite Forall_forall in IH, Hch.
+    rewrite (IH c Hc (pre ++ k) q r' (Hch c Hc) Hq), app_assoc. reflexivity.
+Qed.
+
+Theorem WF_root_Canonical root : WF_root root -> Canonical root.
+Proof.
+  intros (Hr & Hs & Hch). split; [exact Hs|]. split.
+  - rewrite Forall_forall in Hch |- *. intros c Hc.
+    apply (WF_CanonN c [] eq_refl (Hch c Hc)).
+  - intros p r Hin. unfold routes_of in Hin. rewrite Hr in Hin. cbn [own app] in Hin.
+    apply in_flat_map in Hin as (c & Hc & Hin). rewrite Forall_forall in Hch.
+    apply (WF_sufs_pat c [] p r (Hch c Hc) Hin).
+Qed.
+
+Lemma nodup_app_disjoint {X} (a b : list X) x : NoDup (a ++ b) -> In x a -> In x b -> False.
+Proof.
+  induction a as [|y a IH]; simpl; intros Hd Ha Hb; [contradiction|].
+  inversion Hd as [|? ? Hn Hd']; subst. destruct Ha as [->|Ha]; auto.
+  apply Hn, in_or_app; auto.
+Qed.
+
+Lemma nodup_app_r {X} (a b : list X) : NoDup (a ++ b) -> NoDup b.
+Proof.
+  induction a as [|y a IH]; simpl; intros Hd; auto. inversion Hd; subst. auto.
+Qed.
+
+Theorem WF_roots_CanonRoots rs : WF_roots rs -> CanonRoots rs.
+Proof.
+  intros (H4 & Hne & Hd & Hwf).
+  assert (Hd' : NoDup (map nkey (firstn 4 rs) ++ map nkey (skipn 4 rs)))
+    by (rewrite <- map_app, firstn_skipn; exact Hd).
+  split; [exact H4|]. split; [|split].
+  - apply (nodup_app_r _ _ Hd').
+  - rewrite Forall_forall in Hne |- *. intros x Hx. split; [|auto].
+    unfold is_removable. apply negb_true_iff.
+    destruct (existsb (bytes_eqb (nkey x)) common_verbs) eqn:E; [|reflexivity]. exfalso.
+    apply existsb_bytes_In in E. rewrite <- H4 in E.
+    apply (nodup_app_disjoint _ _ _ Hd' E). apply in_map. exact Hx.
+  - rewrite Forall_forall in Hwf |- *. intros x Hx. apply WF_root_Canonical; auto.
+Qed.
+
+(* ---------- route sets: WFDef.routes_of_txn vs Canon.txn_routes ---------- *)
+Lemma rlist_sufs : forall n r, In r (rlist n) <-> exists p, In (p, r) (sufs n).
+Proof.
+  induction n as [k rt ch IH] using cnode_ind. intros r. cbn [rlist]. rewrite in_app_iff, in_flat_map.
+  rewrite Forall_forall in IH. split.
+  - intros [Hin|(c & Hc & Hin)].
+    + destruct rt as [x|]; simpl in Hin; [|contradiction]. destruct Hin as [->|[]].
+      exists (k ++ []). apply sufs_in. exists ([], r). split; auto. simpl; auto.
+    + apply (IH c Hc) in Hin as [p Hp]. exists (k ++ p). apply sufs_in. exists (p, r). split; auto.
+      apply in_or_app. right. apply in_flat_map. eauto.
+  - intros [p Hp]. apply sufs_in in Hp as ([q r'] & E & Hq). unfold prepend in E. cbn [fst snd] in E.
+    injection E as -> ->. apply in_app_or in Hq as [Hq|Hq].
+    + left. destruct rt as [x|]; simpl in Hq; [|contradiction]. destruct Hq as [E|[]].
+      injection E as _ <-. simpl; auto.
+    + right. apply in_flat_map in Hq as (c & Hc & Hq). exists c. split; auto. apply (IH c Hc). eauto.
+Qed.
+
+Lemma rlist_root root r : In r (rlist root) <-> exists p, In (p, r) (routes_of root).
+Proof.
+  destruct root as [k rt ch]. unfold routes_of. cbn [rlist nroute nchildren].
+  rewrite in_app_iff, in_flat_map. split.
+  - intros [Hin|(c & Hc & Hin)].
+    + destruct rt as [x|]; simpl in Hin; [|contradiction]. destruct Hin as [->|[]].
+      exists []. simpl; auto.
+    + apply rlist_sufs in Hin as [p Hp]. exists p. apply in_or_app. right. apply in_flat_map. eauto.
+  - intros [p Hp]. apply in_app_or in Hp as [Hp|Hp].
+    + left. destruct rt as [x|]; simpl in Hp; [|contradiction]. destruct Hp as [E|[]].
+      injection E as _ <-. simpl; auto.
+    + right. apply in_flat_map in Hp as (c & Hc & Hp). exists c. split; auto. apply rlist_sufs. eauto.
+Qed.
+
+Lemma route_eta (r : route) : {| rpat := rpat r; rid := rid r |} = r.
+Proof. destruct r; reflexivity. Qed.
+
+Lemma txn_routes_of_triples ra rb :
+  Forall Canonical ra -> Forall Canonical rb ->
+  incl (flat_map routes_of_root ra) (flat_map routes_of_root rb) ->
+  incl (txn_routes ra) (txn_routes rb).
+Proof.
+  intros Ha Hb Hi [m [p r]] Hin.
+  apply in_txn_routes in Hin as (x & Hx & <- & Hpr).
+  rewrite Forall_forall in Ha, Hb.
+  assert (Hp : rpat r = p) by (apply (Ha x Hx); auto).
+  assert (Ht : In (nkey x, rpat r, rid r) (flat_map routes_of_root ra)).
+  { apply in_flat_map. exists x. split; auto. unfold routes_of_root. apply in_map_iff.
+    exists r. split; auto. apply rlist_root. eauto. }
+  apply Hi, in_flat_map in Ht as (y & Hy & Ht). unfold routes_of_root in Ht.
+  apply in_map_iff in Ht as (r' & E & Hr'). injection E as Ek Ep Ei.
+  assert (r' = r) as -> by (rewrite <- (route_eta r'), <- (route_eta r); congruence).
+  apply rlist_root in Hr' as [p' Hp']. apply in_txn_routes. exists y. repeat split; auto.
+  assert (rpat r = p') by (apply (Hb y Hy); auto). congruence.
+Qed.
+
+(* two well-formed transactions holding the same set of (method, pattern, route id)
+   have the same trees; only the order of the custom-method roots may differ *)
+Theorem WF_txn_unique (ta tb : txn) :
+  WF_txn ta -> WF_txn tb ->
+  seteq (routes_of_txn ta) (routes_of_txn tb) ->
+  firstn 4 (t_roots ta) = firstn 4 (t_roots tb) /\
+  Permutation (skipn 4 (t_roots ta)) (skipn 4 (t_roots tb)).
+Proof.
+  intros [Ha _] [Hb _] E.
+  apply WF_roots_CanonRoots in Ha. apply WF_roots_CanonRoots in Hb.
+  apply canon_roots_unique; auto.
+  pose proof Ha as (_ & _ & _ & Ca). pose proof Hb as (_ & _ & _ & Cb).
+  intros x. split; apply txn_routes_of_triples; auto; intros t; apply E.
+Qed.
+
+Example WF_bridge_ex : Canonical (nth 0 (t_roots ex_txn1) (empty_root [])).
+Proof. apply WF_root_Canonical, wf_rootb_spec. vm_compute. reflexivity. Qed.
